@@ -101,7 +101,12 @@ fn presence_docs() -> Vec<(Document, Vec<(usize, String)>)> {
                             _ => {}
                         }
                         if code {
-                            m.code = Some(format!("{}", 100 + k));
+                            m.code = Some(match k % 5 {
+                                0 => "4294967295".to_string(),
+                                1 => "16777215".to_string(),
+                                2 => "0".to_string(),
+                                _ => format!("{}", 100 + k),
+                            });
                         }
                         if let Some(d) = doc {
                             inserts_spec.push((it.members.len(), d));
